@@ -27,6 +27,7 @@ RULE = ("histories of 1-40 operations (set, get, del, in, len, list, order_first
         "copies, re-parsed dumps), starting from Deb822(), Deb822(dict) or Deb822(text); single-line values plus a "
         "few multi-line and invalid ones; after every operation: its result or exception kind, list(d), the values, "
         "len(d), k in d for every key, d.dump() of the paragraph operated on, and the items of EVERY paragraph. "
+        "every case must lie in the declared domain of the theorems (Check.case_in_domain, part of agree). "
         "non-trivial = at least one successful mutation")
 TRUSTED = [
     "model coq/Dict/Heap.v is a hand transcription of LinkedListNode/LinkedList/OrderedSet/_CaseInsensitiveString, "
